@@ -76,8 +76,8 @@ def evInt (vm : VM) : Expr → Option Int
 def evOfLit : Expr → Option Ev
   | .lit "vaxis.FocusOut{}" => some .focusOut
   | .lit "vaxis.FocusIn{}" => some .focusIn
-  | .lit "vaxis.MouseEnter{}" => some .mouseEnter
-  | .lit "vaxis.MouseLeave{}" => some .mouseLeave
+  | .lit "MouseEnter{}" => some .mouseEnter
+  | .lit "MouseLeave{}" => some .mouseLeave
   | _ => none
 
 def evBool (vm : VM) : Expr → Option Bool
@@ -89,6 +89,10 @@ def evBool (vm : VM) : Expr → Option Bool
   | .un "!" a => (evBool vm a).map (fun x => !x)
   | .bin "!=" (.var x) (.var "nil") => find vm.flags x
   | .bin "==" (.var x) (.var "nil") => (find vm.flags x).map (fun b => !b)
+  | .bin "==" (.var a) (.var b) =>
+      match find vm.ids a, find vm.ids b with
+      | some x, some y => some (decide (x = y))              -- two widgets
+      | _, _ => do let x ← evInt vm (.var a); let y ← evInt vm (.var b); pure (decide (x = y))
   | .bin "==" a b => do let x ← evInt vm a; let y ← evInt vm b; pure (decide (x = y))
   | .bin ">=" a b => do let x ← evInt vm a; let y ← evInt vm b; pure (decide (x ≥ y))
   | .bin ">" a b => do let x ← evInt vm a; let y ← evInt vm b; pure (decide (x > y))
@@ -126,6 +130,9 @@ def atom (e : EOracle) (fuel : Nat) (ev : Ev) (vm : VM) (l : Line) : Res :=
     | _, _ => none
   | .exprS, .arg (.call (.var "v0.handleCommand")) (.var c), _ =>
     (find vm.cmds c).map (fun cmd => ({ vm with s := eHandleCommand e fuel vm.s cmd }, .norm))
+  | .assign, .var "r.lastHits", .lit "[]hitResult{}" => some ({ vm with s := { vm.s with lastHits := [] } }, .norm)
+  | .assign, .var "r.lastHits", .arg (.arg (.call (.var "append")) (.var "r.lastHits")) (.lit "hitResult{v1:v1}") =>
+    (find vm.ids "v1").map (fun w => ({ vm with s := { vm.s with lastHits := vm.s.lastHits ++ [⟨0, 0, w⟩] } }, .norm))
   | .assign, .var "r.mouse", .un "&" (.var "v1") =>
     match ev with
     | .mouse col row => some ({ vm with s := { vm.s with mouse := some (col, row) } }, .norm)
@@ -204,6 +211,17 @@ def runFocusWidget (body : Stmt) (e : EOracle) (fuel : Nat) (s : St) (w : Id) : 
   | some (vm, .ret b) => some (vm.s, b)
   | some (vm, _) => some (vm.s, false)
   | none => none
+
+/-- `mouseHandler.mouseExit(app)` run from its body (`lf` unused: no index loop). -/
+def runMouseExit (body : Stmt) (e : EOracle) (fuel : Nat) (s : St) : Option (St × Bool) :=
+  match exec e fuel .init body 1 ⟨s, [], [], [], [], []⟩ with
+  | some (vm, .ret b) => some (vm.s, b)
+  | some (vm, _) => some (vm.s, false)
+  | none => none
+
+/-- `mouseHandler.mouseEnter(app, w)` run from its body (parameter `v1 = w`). -/
+def runMouseEnter (body : Stmt) (e : EOracle) (fuel : Nat) (s : St) (w : Id) : Option (St × Bool) :=
+  runFocusWidget body e fuel s w
 
 /-- `mouseHandler.handleEvent(app, mouse)` run from its body. -/
 def runMouseHandleEvent (body : Stmt) (e : EOracle) (fuel : Nat) (s : St) (col row : Int) (lf : Nat) : Option (St × Bool) :=
